@@ -36,6 +36,16 @@ def trace_case(run, u, setup, call, proj="P-trace", theorems=()):
     return ops
 
 
+def kernel_check(run, rng, lines, extracted, n):
+    """the same command lines evaluated inside Coq (vm_compute) must give what the extracted runner gave"""
+    idx = pick(rng, range(len(lines)), n)
+    got = model.run_lines_kernel([lines[i] for i in idx])
+    run.extra["kernel_sample"] = run.extra.get("kernel_sample", 0) + len(idx)
+    for i, g in zip(idx, got):
+        if g != extracted[i]:
+            run.disagree("extraction-vs-kernel", {"line": lines[i]}, g, extracted[i], ["(extraction)"])
+
+
 def observe(u, root, pids, fmts):
     """what a fresh instance opened on [root] serves: pid -> retrieve_object outcome, (pid, fmt) -> retrieve_metadata outcome"""
     im = Impl(u, pids, fmts, root=root)
@@ -83,6 +93,7 @@ def c10(run):
                 run.disagree("P-crash/length", {"scenario": s["id"], "setup": s["setup"], "call": s["call"]}, s["length"], len(ops2), ["C10_crash_recovery (crash points = operations of the model run)"])
             lines = [cf.model_crash(setup, call, n) for n in range(len(states))]
             mres = model.run_lines(lines)
+            kernel_check(run, rng, lines, mres, 1)
             # what was served before the call
             _, root0 = cf.abstract_snapshot(u, states[0], base, pids, fmts, "init")
             objs0, metas0 = observe(u, root0, pids, fmts)
@@ -216,6 +227,8 @@ def fault_scenarios(run, menu_name, theorems, only_locks=False):
         plans = [p_ for p_ in must.get(s["id"], []) if p_ not in plans] + plans
         lines = [cf.model_fault_line(setup, call, k, pers) for k, pers in plans]
         mres = model.run_lines(lines)
+        if s is chosen[0] or s is chosen[-1]:
+            kernel_check(run, rng, lines, mres, 2)
         for (k, pers), mr in zip(plans, mres):
             runs += 1
             POINT[0] = "%s:%d:%d:%d" % (menu_name.replace(".json", ""), s["id"], k, 1 if pers else 0)
